@@ -857,6 +857,8 @@ EXPORT errno_t _wcsnorm_reorder_s_chk(wchar_t *restrict dest, rsize_t dmax,
         }
 
         if (unlikely(!dmax)) {
+            if (seq_ext)
+                free(seq_ext);
             handle_werror(orig_dest, orig_dmax,
                           "wcsnorm_reorder_s: "
                           "dmax too small",
@@ -1074,9 +1076,20 @@ EXPORT errno_t _wcsnorm_compose_s_chk(wchar_t *restrict dest, rsize_t dmax,
             }
         }
 
-        /* output */
+        /* output: starter, pending combiners and room for the null */
+        if (unlikely(dmax < cc_pos + 2)) {
+            if (seq_ext)
+                free(seq_ext);
+            handle_werror(orig_dest, orig_dmax,
+                          "wcsnorm_compose_s: "
+                          "dmax too small",
+                          ESNOSPC);
+            return RCNEGATE(ESNOSPC);
+        }
         _ENC_W16(dest, dmax, cpS); /* starter (composed or not) */
         if (unlikely(!dmax)) {
+            if (seq_ext)
+                free(seq_ext);
             handle_werror(orig_dest, orig_dmax,
                           "wcsnorm_compose_s: "
                           "dmax too small",
